@@ -44,7 +44,7 @@ StepOf(e) ==
     [] e.act = "GetBallTree"  -> GetTree("ball", e.h, e.args[1], e.args[2], e.args[3], e.args[4])
     [] e.act = "GetKdTree"    -> GetTree("kd", e.h, e.args[1], e.args[2], e.args[3], e.args[4])
     [] e.act = "ToGdf"        -> ToGdf(e.h, e.args[1], e.args[2], e.args[3], e.args[4], e.args[5])
-    [] e.act = "DataToGdf"    -> DataToGdf(e.h, e.args[1], e.args[2], e.args[3])
+    [] e.act = "DataToGdf"    -> DataToGdf(e.h, e.args[1], e.args[2], e.args[3], e.args[4])
     [] e.act = "ToPoly"       -> ToPoly(e.h, e.args[1], e.args[2], e.args[3], e.args[4])
     [] e.act = "ToLine"       -> ToLine(e.h, e.args[1], e.args[2], e.args[3], e.args[4])
     [] e.act = "ToXarray"     -> ToXarray(e.h, e.args[1])
